@@ -1,4 +1,5 @@
 import Pendulum.Model.DTOps
+import Pendulum.Model.TimeOfDay
 /-! Reference semantics of the standard library's `datetime` for the operations a pendulum `DateTime`
 overrides or inherits (property C11): the comparison rule of `datetime._cmp` / `datetime_richcompare`,
 `datetime.__sub__`, `astimezone`, and the field accessors. A value is a `DTOps.V`
@@ -68,5 +69,157 @@ def acc (v : V) : Acc :=
   { offset := v.offset, instant := v.instant, ordinal := ord, weekday := isoweekdayOrd ord - 1,
     isoY := iy, isoW := iw, isoD := id, year := y, month := m, day := d, tod := v.w % DAY,
     yday := dayOfYear y m d, utcOrdinal := u / DAY + epochOrd, utcTod := u % DAY }
+
+/-! ### `Date` / `Time` overrides and the `DateTime` methods that return dates and times
+
+A date is its proleptic ordinal (1 = 0001-01-01), a time of day its microseconds since 00:00
+(`TimeOfDay.fields` / `ofFields` are the hour/minute/second/microsecond view), a tzinfo *object* carried by a
+`time` is an opaque identity. Every pendulum answer carries the class it is an instance of (`Ty`). -/
+
+/-- the class of an answer -/
+inductive Ty | pDate | pTime | pDateTime | pInterval | pDuration | nDate | nTime | nDateTime | nTimedelta
+deriving DecidableEq, Repr
+
+def Ty.code : Ty → Int
+  | .pDate => 1 | .pTime => 2 | .pDateTime => 3 | .pInterval => 4 | .pDuration => 5
+  | .nDate => 11 | .nTime => 12 | .nDateTime => 13 | .nTimedelta => 14
+
+inductive Ex | valueError | typeError
+deriving DecidableEq, Repr
+
+def Ex.name : Ex → String
+  | .valueError => "ValueError" | .typeError => "TypeError"
+
+def maxOrd : Int := 3652059
+
+/-- `date(y, m, d)` and `Date(y, m, d)` alike: `_check_date_fields`, then the value (its ordinal) -/
+def mkDate (y m d : Int) : Except Ex Int :=
+  if 1 ≤ y ∧ y ≤ 9999 ∧ validDate y m d then .ok (ymd2ord y m d) else .error .valueError
+
+/-- `date.fromordinal(n)` -/
+def nFromOrdinal (n : Int) : Except Ex Int :=
+  if 1 ≤ n ∧ n ≤ maxOrd then .ok n else .error .valueError
+
+/-- `Date.fromordinal`: `dt = super().fromordinal(n); cls(dt.year, dt.month, dt.day)` -/
+def pFromOrdinal (n : Int) : Except Ex (Ty × Int) :=
+  match nFromOrdinal n with
+  | .error e => .error e
+  | .ok k =>
+    match mkDate (ord2ymd k).1 (ord2ymd k).2.1 (ord2ymd k).2.2 with
+    | .error e => .error e
+    | .ok r => .ok (.pDate, r)
+
+/-- `date.replace(year=None, month=None, day=None)`: `type(self)(year, month, day)` -/
+def nDateReplace (n : Int) (y m d : Option Int) : Except Ex Int :=
+  mkDate (y.getD (ord2ymd n).1) (m.getD (ord2ymd n).2.1) (d.getD (ord2ymd n).2.2)
+
+/-- `Date.replace`: the same defaults, `self.__class__(year, month, day)` -/
+def pDateReplace (n : Int) (y m d : Option Int) : Except Ex (Ty × Int) :=
+  match mkDate (y.getD (ord2ymd n).1) (m.getD (ord2ymd n).2.1) (d.getD (ord2ymd n).2.2) with
+  | .error e => .error e
+  | .ok r => .ok (.pDate, r)
+
+/-- `date.__sub__(date)`: `timedelta(days)` in µs -/
+def nDateSub (a b : Int) : Int := (a - b) * DAY
+
+/-- `Date.__sub__(other: date)`: `dt = self.__class__(other.year, other.month, other.day)`, `dt.diff(self, False)` =
+    `Interval(dt, self)` whose `timedelta` base is `date(self) - date(dt)` -/
+def pDateSub (a b : Int) : Except Ex (Ty × Int) :=
+  match mkDate (ord2ymd b).1 (ord2ymd b).2.1 (ord2ymd b).2.2 with
+  | .error e => .error e
+  | .ok b' => .ok (.pInterval, (a - b') * DAY)
+
+/-- a `time` value: µs of the day, identity of the tzinfo object it carries, fold -/
+structure TV where
+  tod : Int
+  tz : Option Nat
+  fold : Bool
+deriving DecidableEq, Repr
+
+/-- `time(h, m, s, us)`: `_check_time_fields` -/
+def mkTod (h m s us : Int) : Except Ex Int :=
+  if 0 ≤ h ∧ h < 24 ∧ 0 ≤ m ∧ m < 60 ∧ 0 ≤ s ∧ s < 60 ∧ 0 ≤ us ∧ us < 1000000 then
+    .ok (TimeOfDay.ofFields h m s us) else .error .valueError
+
+/-- the `tzinfo=` argument of `replace`: `True` (keep, the default), `None`, or a tzinfo object -/
+inductive TzArg | keep | clear | set (k : Nat)
+
+def TzArg.apply : TzArg → Option Nat → Option Nat
+  | .keep, cur => cur
+  | .clear, _ => none
+  | .set k, _ => some k
+
+/-- `time.replace(hour=None, minute=None, second=None, microsecond=None, tzinfo=True, *, fold=None)` -/
+def nTimeReplace (t : TV) (h m s us : Option Int) (tz : TzArg) (fold : Option Bool) : Except Ex TV :=
+  let f := TimeOfDay.fields t.tod
+  match mkTod (h.getD f.1) (m.getD f.2.1) (s.getD f.2.2.1) (us.getD f.2.2.2) with
+  | .error e => .error e
+  | .ok tod => .ok ⟨tod, tz.apply t.tz, fold.getD t.fold⟩
+
+/-- `Time.replace(…, tzinfo=True, fold=0)`: `t = super().replace(…, fold=fold)`, then
+    `self.__class__(t.hour, t.minute, t.second, t.microsecond, tzinfo=t.tzinfo)` — the fold is not passed on -/
+def pTimeReplace (t : TV) (h m s us : Option Int) (tz : TzArg) (fold : Option Bool) : Except Ex (Ty × TV) :=
+  match nTimeReplace t h m s us tz (some (fold.getD false)) with
+  | .error e => .error e
+  | .ok r =>
+    let f := TimeOfDay.fields r.tod
+    match mkTod f.1 f.2.1 f.2.2.1 f.2.2.2 with
+    | .error e => .error e
+    | .ok tod => .ok (.pTime, ⟨tod, r.tz, false⟩)
+
+/-- `Time.__sub__(other: time)`: aware `other` → TypeError; `other = cls(other.hour, …)`; `other.diff(self, False)`
+    = `Duration(microseconds=us(self) - us(other))` -/
+def pTimeSub (a b : TV) : Except Ex (Ty × Int) :=
+  if b.tz.isSome then .error .typeError else .ok (.pDuration, TimeOfDay.sub a.tod b.tod)
+
+/-- `Time.__rsub__(other: time)` (a native `time` on the left): aware `other` → TypeError;
+    `other = cls(other.hour, …)` (naive); `other.__sub__(self)` -/
+def pTimeRsub (self other : TV) : Except Ex (Ty × Int) :=
+  if other.tz.isSome then .error .typeError else pTimeSub ⟨other.tod, none, false⟩ self
+
+/-- wall µs of `datetime.combine(date, time)` -/
+def wallOf (ord tod : Int) : Int := (ord - epochOrd) * DAY + tod
+
+/-- `DateTime.date()`: `Date(self.year, self.month, self.day)` -/
+def pDateOf (v : V) : Except Ex (Ty × Int) :=
+  let f := AddDur.wallToFields v.w
+  match mkDate f.1 f.2.1 f.2.2.1 with
+  | .error e => .error e
+  | .ok r => .ok (.pDate, r)
+
+/-- `datetime.time()`: `time(hour, minute, second, microsecond, fold=self.fold)` -/
+def nTimeOf (v : V) : TV := ⟨v.w % DAY, none, v.fold⟩
+/-- `datetime.timetz()`; `k` = identity of the value's tzinfo object (`none` for naive) -/
+def nTimetzOf (v : V) (k : Option Nat) : TV := ⟨v.w % DAY, k, v.fold⟩
+
+/-- `DateTime.time()`: `Time(self.hour, self.minute, self.second, self.microsecond)` -/
+def pTimeOf (v : V) : Except Ex (Ty × TV) :=
+  let f := TimeOfDay.fields (v.w % DAY)
+  match mkTod f.1 f.2.1 f.2.2.1 f.2.2.2 with
+  | .error e => .error e
+  | .ok tod => .ok (.pTime, ⟨tod, none, false⟩)
+
+/-- `DateTime.timetz()`: `Time(…, tzinfo=self.tzinfo, fold=self.fold)` -/
+def pTimetzOf (v : V) (k : Option Nat) : Except Ex (Ty × TV) :=
+  let f := TimeOfDay.fields (v.w % DAY)
+  match mkTod f.1 f.2.1 f.2.2.1 f.2.2.2 with
+  | .error e => .error e
+  | .ok tod => .ok (.pTime, ⟨tod, k, v.fold⟩)
+
+/-- `datetime.combine(date, time, tzinfo=True)`: the time's tzinfo unless one is given -/
+def nCombine (ord tod : Int) (tz : ZRef) (tfold : Bool) (tzArg : Option ZRef) : V :=
+  ⟨tzArg.getD tz, wallOf ord tod, tfold⟩
+
+/-- `DateTime.combine(date, time, tzinfo=None)` = `cls.instance(datetime.combine(date, time), tz=tzinfo)`:
+    `tz = dt.tzinfo or tz` — the argument only counts for a naive time; an aware value goes through the
+    offset-matching fold choice of `instance`, a naive one straight to `create` with the time's fold -/
+def pCombine (ord tod : Int) (tz : ZRef) (tfold : Bool) (tzArg : ZRef) : Except Err (Ty × V) :=
+  let w := wallOf ord tod
+  let r := match tz with
+    | .naive => create tzArg w tfold false
+    | z => instanceAware z w tfold (V.offset ⟨z, w, tfold⟩)
+  match r with
+  | .error e => .error e
+  | .ok v => .ok (.pDateTime, v)
 
 end Pendulum.Native
